@@ -950,7 +950,7 @@ pub fn run_check(ctx: &Ctx) -> i32 {
         .set("vacuity", json!({"distinct_outcome_classes": classes.len(), "forged_outcome_classes": fclasses.len()}))
         .set("rule", json!(format!("part E: every schedule with at most {} (one fewer for four concurrent exchanges) non-default adversary decisions (drop / duplicate / reorder / timer first / loss or expiry of the first session at either node) during the disturbance phase, for every pair of handler behaviours on one and on two sessions and for triples / quadruples that exceed the two-handler pool, followed by 60 s of virtual time and a probe exchange on each session over a FIFO network. Part F: every forged message (3 targets x exchange id honest/fresh x initiator flag x 5 opcode kinds x reliable x ack) at 4 moments of an honest held exchange, and pairs of them; the exchange table is compared before / after each forged message against the matching rule", bound)));
     ev.assume("forged messages are sealed with the repo's own AEAD routine (header layout is harness-side); group sessions and unsecured sessions are not part of the forged-message sweep");
-    if classes.len() < 3 || fclasses.len() < 3 {
+    if report.violations.is_empty() && (classes.len() < 3 || fclasses.len() < 3) {
         eprintln!("MACHINERY: vacuous C10 run");
         return 2;
     }
